@@ -48,7 +48,7 @@ fn settle(w: &mut World, rounds: usize) {
     w.max_jump_ns = saved;
 }
 
-fn case(seed: u64, lane: Lane, trace: bool, enumerate: Option<(u64, u32)>) -> CaseOut {
+pub fn case(seed: u64, lane: Lane, trace: bool, enumerate: Option<(u64, u32)>) -> CaseOut {
     let mut r = Rng::new(seed ^ 0xC17);
     let mut out = CaseOut::default();
     let accept = r.chance(60);
@@ -224,9 +224,12 @@ fn case(seed: u64, lane: Lane, trace: bool, enumerate: Option<(u64, u32)>) -> Ca
         IncomingPolicy::HoldNs(_) => out.cnt.inc("c17.late_accept"),
         _ => {}
     }
+    let mut c12 = vec![];
     for v in w.all_violations() {
         if matches!(v.prop, "C17" | "C01" | "C16" | "C11" | "C05") || (v.prop == "C02" && v.msg.contains("honest peers")) {
             viol.push(format!("[{}] {}", v.prop, v.msg));
+        } else if v.prop == "C12" {
+            c12.push(v);
         }
     }
     let desc = format!(
@@ -247,6 +250,9 @@ fn case(seed: u64, lane: Lane, trace: bool, enumerate: Option<(u64, u32)>) -> Ca
     );
     for m in viol {
         out.viol.push(Violation { prop: "C17", msg: format!("{m} | {desc}") });
+    }
+    for v in c12 {
+        out.viol.push(Violation { prop: "C12", msg: format!("{} | {desc}", v.msg) });
     }
     out.cnt.merge(&w.led.cnt);
     out.cnt.merge(&w.mon.cnt);
